@@ -25,7 +25,8 @@ EXTENDS Naturals, Integers, Sequences, FiniteSets, TLC
 
 CONSTANTS N, NSig, MaxOps, DeepLock, MixinsUpdate,
           BadSig,        \* a signature whose method cannot be built (0: none): every build of an overlay holding it fails
-          UnlockOnFail   \* TRUE: a failed build gives back the locks it put on its parents (the repaired code)
+          UnlockOnFail,  \* TRUE: a failed build gives back the locks it put on its parents (the repaired code)
+          HotReload      \* TRUE: methods of nodes in use are also replaced through their Conformer (X5, beyond the listed properties)
 
 VARIABLES exists, mix, lb, own, locked, compiled, built, nm, nops, last,
           used           \* history: the node has been built successfully at some time (came into use)
@@ -170,6 +171,20 @@ Unregister(n, m) ==
   /\ Modify(n, DropClose(own[n], m),
             [op |-> "unregister", n |-> n, m |-> m, out |-> "ok"])
 
+(* hot reload (X5): Conformer.__conform__ of a method the node registered itself - unregister(old), register(new)  *)
+(* in one call. A conformer exists only once the node has been built (it hangs on the handlers of the table). The     *)
+(* code takes two steps, each followed by the rebuild of everything that receives updates; they are one step here     *)
+(* because the first cannot fail once it is admitted (dropping a method never makes an overlay unbuildable) and the   *)
+(* rebuilds are functions of the tables alone - the replay compares flags and outcomes after the whole call.          *)
+(* A refusal (locked node) comes from the unregistration: nothing has changed. A failing rebuild comes from the       *)
+(* registration of the new version: the old one is gone, the new one registered, the error reported.                  *)
+Conform(n, m, s) ==
+  /\ HotReload
+  /\ exists[n] /\ compiled[n] /\ \E k \in DOMAIN own[n] : own[n][k] = m
+  /\ nm' = IF locked[n] THEN nm ELSE nm + 1
+  /\ Modify(n, PushDown(DropClose(own[n], m), s, 0, nm + 1),
+            [op |-> "conform", n |-> n, old |-> m, m |-> nm + 1, sid |-> s, out |-> "ok"])
+
 (* first use (or any use): ensure compiled *)
 Use(n) ==
   /\ exists[n] /\ Eff(n) # Empty
@@ -196,6 +211,7 @@ Step ==
   \/ \E n, p \in Nodes : AddMixins(n, p)
   \/ \E n \in Nodes : \E s \in 1..NSig : Register(n, s)
   \/ \E n \in Nodes : \E m \in 1..nm : Unregister(n, m)
+  \/ \E n \in Nodes : \E m \in 1..nm : \E s \in 1..NSig : Conform(n, m, s)
   \/ \E n \in Nodes : Use(n)
 
 Next == nops < MaxOps /\ Step /\ nops' = nops + 1
